@@ -103,6 +103,11 @@ func (t *Tree) feedLeaf(leaf validator, jsonLex lexeme.LexEvent, indexOfLeaf int
 		leaf.setParent(nil) // remove the pointer to simplify garbage collection in the future
 		if parent == nil {
 			delete(t.leaves, indexOfLeaf)
+		} else if t.hasLeaf(parent) {
+			// Another alternative of the same value has already stepped back to
+			// this parent: keep it only once, otherwise the parent would be fed
+			// (and e.g. count array items) once per successful alternative.
+			delete(t.leaves, indexOfLeaf)
 		} else {
 			t.leaves[indexOfLeaf] = parent // step back to parent
 		}
@@ -121,6 +126,15 @@ func (t *Tree) feedLeaf(leaf validator, jsonLex lexeme.LexEvent, indexOfLeaf int
 	}
 
 	return nil
+}
+
+func (t *Tree) hasLeaf(v validator) bool {
+	for _, l := range t.leaves {
+		if l == v {
+			return true
+		}
+	}
+	return false
 }
 
 func (t *Tree) addLeaf(v validator) {
